@@ -224,13 +224,20 @@ def scan_forbidden(files):
         except OSError:
             continue
         src = re.sub(r'"[^"]*"', '""', src)
+        sections = []
         for ln, line in enumerate(src.split("\n"), 1):
             m = FORBIDDEN.search(line)
             if m:
                 bad.append("%s:%d: %s" % (os.path.relpath(f, VERIF), ln, m.group(0)))
-            if re.match(r"\s*(Variable|Variables|Hypothesis|Hypotheses|Context)\b", line):
-                pass  # section-locality is checked by coqc itself: outside a section these print a
-                      # "declared as axiom/local" warning which the Print Assumptions scan catches
+            ms = re.match(r"\s*Section\s+([A-Za-z0-9_']+)\s*\.", line)
+            if ms:
+                sections.append(ms.group(1))
+            me = re.match(r"\s*End\s+([A-Za-z0-9_']+)\s*\.", line)
+            if me and sections and sections[-1] == me.group(1):
+                sections.pop()
+            if not sections and re.match(r"\s*(Variable|Variables|Hypothesis|Hypotheses|Context)\b", line):
+                # outside a section these declare an axiom
+                bad.append("%s:%d: %s outside a section" % (os.path.relpath(f, VERIF), ln, line.strip()[:60]))
     return bad
 
 
